@@ -538,7 +538,7 @@ def _emit_templates(fn: Function) -> List[Tuple[ast.AST, Template, str]]:
                 continue
             if any(isinstance(x, ast.JoinedStr) for x in ast.walk(n)):
                 continue  # its f-string parts are examined on their own
-            t0 = template_of(n)
+            t0 = template_of(n, const_names=fn.node)
             if t0 is None or not any(isinstance(p_, str) and p_ for p_ in t0.parts):
                 continue
         elif not isinstance(n, ast.JoinedStr):
@@ -548,7 +548,7 @@ def _emit_templates(fn: Function) -> List[Tuple[ast.AST, Template, str]]:
             continue
         if _is_log_or_raise_context(n):
             continue
-        t = template_of(n)
+        t = template_of(n, const_names=fn.node)
         if t is None or not t.holes:
             continue
         how = "piece"
